@@ -3,6 +3,7 @@ import RsslVerif.Lemmas.FixpointStmt
 import RsslVerif.Gen.FixpointTables
 import RsslVerif.Lemmas.FixpointText
 import RsslVerif.Lemmas.FixpointSlots
+import RsslVerif.Thm.C05Layers
 import RsslVerif.Lemmas.FixpointLeaf
 import RsslVerif.Thm.C09
 import RsslVerif.Lemmas.FixpointNamesWF
@@ -118,6 +119,140 @@ example :
      | .error _ => false) = true := by decide
 
 end Reread
+
+/-! ## Resources declared through typedefs (seeded mutant C04-7)
+
+The exporter prints no typedef: `typedef Texture2D<float4> TextureTable[4]; TextureTable g;` is emitted as
+`Texture2D<float4> g[4] : register(t0);`.  The second generation therefore allocates over OTHER layer chains than the
+first one; the slot clause of the property needs the allocator's peel to see the same thing through both. -/
+section TypedefSpelling
+open RsslVerif.Gen.MetaTables RsslVerif.Model.Meta RsslVerif.Spec.Meta RsslVerif.Model.FixpointSlots
+open RsslVerif.Lemmas.FixpointSlots RsslVerif.Lemmas.MetaLayers
+
+/-- Tie to the source: the GlobalVariable arm of `process_definition` (`assign_api_bindings`) peels the declared type in
+    the order *outer modifier, sized array layer, modifier of the element* — both as the ordered operation list C05's
+    symbolic reader extracts from the `let` statements (`Gen.MetaTables.allocPeel`; an unknown helper call reads as
+    `[.unknown]`) and as C06's statement-level regex fact.  Seeded mutant C04-7 (`extract_sized_array`: the array layer is
+    matched on the id as given, the outer modifier is never removed in front of it) falsifies both. -/
+theorem slot_peel_as_modelled :
+    allocPeel = [.removeModifier, .takeArray true, .removeModifierAfterArray] ∧
+    allocShape.peelsModifierArrayModifier = true := ⟨rfl, by decide⟩
+
+/-- A resource as the SOURCE spells it: object type `kind`, reached through the typedef chain `steps`
+    (`typedef [const] <cur> X[n]?;`, innermost first), optional `const` keyword, declarator dimensions `dims`. -/
+structure RDecl where
+  name : String
+  set : Option Nat
+  staticSampler : Bool
+  kind : ObjKind
+  steps : List TypedefStep
+  constKw : Bool
+  dims : List (Option Nat)
+  bindless : Bool
+  deriving Repr
+
+/-- the layer chain the typer builds for it (`Model.Meta.globalTy`: the implicit const of an extern global wraps the NAMED type) -/
+def RDecl.ty (r : RDecl) : Ty := globalTy (.object r.kind) r.steps r.constKw .extern r.dims
+
+/-- the root definition of the first generation -/
+def RDecl.first (r : RDecl) : TDecl := .global r.name r.set r.staticSampler r.ty r.bindless .extern
+
+/-- The chain the SECOND generation builds: the exporter prints neither typedefs nor `const` on a resource, it prints
+    the object type and every array layer of the chain on the declarator (`Texture2D<float4> g[4]`), so the implicit
+    const now sits INSIDE the array layers. -/
+def RDecl.exportedTy (r : RDecl) : Ty := globalTy (.object r.kind) [] false .extern (Ty.dims r.ty)
+
+/-- the root definition the second generation sees (same name, group annotation, flags) -/
+def RDecl.exported (r : RDecl) : TDecl := .global r.name r.set r.staticSampler r.exportedTy r.bindless .extern
+
+/-- what the allocator's peel sees depends on the array lengths and the innermost object of a well-formed chain only,
+    not on where the modifier layers sit (from C05's `descriptor_kind_count_from_layers`) -/
+theorem toSlot_of_dims_base {n : String} {s : Option Nat} {ss bl : Bool} {t t' : Ty}
+    (hw : Ty.wf t = true) (hw' : Ty.wf t' = true) (hd : Ty.dims t' = Ty.dims t) (hb : Ty.base t' = Ty.base t) :
+    (TDecl.global n s ss t' bl .extern).toSlot allocPeel = (TDecl.global n s ss t bl .extern).toSlot allocPeel := by
+  rw [(C05.descriptor_kind_count_from_layers (n := n) (s := s) (ss := ss) (bl := bl) (st := .extern) hw).2.2,
+    (C05.descriptor_kind_count_from_layers (n := n) (s := s) (ss := ss) (bl := bl) (st := .extern) hw').2.2]
+  simp only [specAllocKind, specAllocLen, specKind, hd, hb]
+
+/-- the exported declarator carries the declarator's dimensions followed by the typedefs', last typedef outermost -/
+theorem exported_dims (r : RDecl) :
+    Ty.dims r.exportedTy = r.dims ++ (r.steps.reverse.filterMap (·.dim)).map some := by
+  have hd := (globalTy_shape r.kind r.steps r.constKw .extern r.dims).2.2
+  have hd' := (globalTy_shape r.kind [] false .extern (Ty.dims r.ty)).2.2
+  unfold RDecl.exportedTy
+  rw [hd']
+  unfold RDecl.ty
+  rw [hd]; simp
+
+/-- **A resource declared through typedefs and its exported direct spelling are the same declaration to the allocator**:
+    same object kind, same array length — for every object kind, every typedef chain (const anywhere, array typedefs,
+    aliases of aliases), with or without the `const` keyword, any declarator dimensions.  `const(array(obj, n))`
+    (`typedef T TA[n]; TA g;`) and `array(const(obj), n)` (`T g[n];`) in particular. -/
+theorem typedef_spelling_same_slot (r : RDecl) :
+    r.exported.toSlot allocPeel = r.first.toSlot allocPeel := by
+  obtain ⟨hw, hb, _⟩ := globalTy_shape r.kind r.steps r.constKw .extern r.dims
+  obtain ⟨hw', hb', hd'⟩ := globalTy_shape r.kind [] false .extern (Ty.dims r.ty)
+  unfold RDecl.exported RDecl.first
+  apply toSlot_of_dims_base
+  · exact hw
+  · exact hw'
+  · unfold RDecl.exportedTy; rw [hd']; simp
+  · unfold RDecl.exportedTy; rw [hb']; unfold RDecl.ty; rw [hb]
+
+/-- **Every resource keeps its slot when typedef'd spellings are exported as direct ones**: `slots_stable_reread` with
+    the second generation's declarations built from the EXPORTED chains (and the bind groups re-read from the printed
+    annotations): the allocator computes the first generation's result again — same group, index, register class for
+    every declaration, same inline blocks; all declaration lists, all typedef chains. -/
+theorem typedef_spelling_slots_stable {p : Params} (hp : DxParams p) (dflt : Nat) (rs : List RDecl) (res : Result)
+    (h : assign p dflt (rs.map (fun r => r.first.toSlot allocPeel)) = .ok res) :
+    assign p 0 (secondDecls (rs.map (fun r => r.exported.toSlot allocPeel)) res.bindings) = .ok res := by
+  have e : rs.map (fun r => r.exported.toSlot allocPeel) = rs.map (fun r => r.first.toSlot allocPeel) :=
+    List.map_congr_left (fun r _ => typedef_spelling_same_slot r)
+  rw [e]
+  exact slots_stable_reread hp dflt _ res h
+
+/-! Non-vacuity (the demo program of the seeded mutant): `typedef Texture2D<float4> TextureTable[4]; TextureTable g_table;
+    Texture2D<float4> g_plain[2]; RWStructuredBuffer<uint> g_out; ByteAddressBuffer g_after;` — the chains differ, the
+    table takes slots 0..3 and the followers keep 4, 6, 7 in the second generation. -/
+def rsEx : List RDecl :=
+  [⟨"g_table", none, false, .Texture2D, [⟨false, some 4⟩], false, [], false⟩,
+   ⟨"g_plain", none, false, .Texture2D, [], false, [some 2], false⟩,
+   ⟨"g_out", none, false, .RWStructuredBuffer, [], false, [], false⟩,
+   ⟨"g_after", none, false, .ByteAddressBuffer, [], false, [], false⟩]
+
+example :
+    decide ((rsEx.map RDecl.ty).map Ty.layers =
+      [[.mod, .arr (some 4), .obj .Texture2D], [.arr (some 2), .mod, .obj .Texture2D],
+       [.mod, .obj .RWStructuredBuffer], [.mod, .obj .ByteAddressBuffer]]) &&
+    decide ((rsEx.map RDecl.exportedTy).map Ty.layers =
+      [[.arr (some 4), .mod, .obj .Texture2D], [.arr (some 2), .mod, .obj .Texture2D],
+       [.mod, .obj .RWStructuredBuffer], [.mod, .obj .ByteAddressBuffer]]) &&
+    (match assign (paramsFor .HlslForDirectX false) 0 (rsEx.map (fun r => r.first.toSlot allocPeel)) with
+     | .ok res =>
+       decide (res.bindings.map (fun b => b.map (·.loc)) = [some (.index 0), some (.index 4), some (.index 6), some (.index 7)]) &&
+       (match assign (paramsFor .HlslForDirectX false) 0
+           (secondDecls (rsEx.map (fun r => r.exported.toSlot allocPeel)) res.bindings) with
+        | .ok res2 => decide (res2 = res)
+        | .error _ => false)
+     | .error _ => false) = true := by decide
+
+/-- `TypeRegistry::extract_sized_array` of seeded mutant C04-7 (NOT the code): the sized array layer is matched on the id
+    as given and a modifier is removed from the element only (from the type itself when it is no such array) -/
+def mutantPeel : List PeelOp := [.takeArray true, .removeModifierAfterArray, .removeModifier]
+
+/-- **Negation witness for the mutant's peel**: over the demo program the mutant's peel finds no object behind the
+    typedef'd table (`const(array(..))`: no array on the outside, then an array layer instead of an object), gives it no
+    slot and numbers the followers 0, 2, 3; over the exported chains it finds the table and numbers them 4, 6, 7 — the
+    slots move (and the first text carries no `register` for the table, the second does: not a fixpoint). -/
+theorem mutant_peel_moves_slots :
+    (match assign (paramsFor .HlslForDirectX false) 0 (rsEx.map (fun r => r.first.toSlot mutantPeel)),
+           assign (paramsFor .HlslForDirectX false) 0 (rsEx.map (fun r => r.exported.toSlot mutantPeel)) with
+     | .ok r1, .ok r2 =>
+       decide (r1.bindings.map (fun b => b.map (·.loc)) = [none, some (.index 0), some (.index 2), some (.index 3)]) &&
+       decide (r2.bindings.map (fun b => b.map (·.loc)) = [some (.index 0), some (.index 4), some (.index 6), some (.index 7)])
+     | _, _ => false) = true := by decide
+
+end TypedefSpelling
 
 /-! ## Re-elaboration of the exported program adds no conversion (type level, C03 model × exporter shadow)
 
